@@ -59,7 +59,10 @@ func packQ(q dns.Question) []byte {
 // decoded before the error, each in wire form>.
 func unpackOracle(m []byte) (string, *dns.Msg, error) {
 	um := new(dns.Msg)
-	err := um.Unpack(m)
+	var err error
+	if Protect(func() string { err = um.Unpack(m); return "" }) == "panic" {
+		return "panic", new(dns.Msg), errors.New("the decoder panicked")
+	}
 	if err == nil {
 		return "ok:" + digest(um), um, nil
 	}
@@ -569,55 +572,7 @@ func runServe(r *Rng, tier string) {
 		n = 600
 	}
 	msgs := genMessages(r, n)
-	emitted := 0
-	one := func(tr, pol string, m []byte, emit bool) {
-		// real serve loop on scripted conns
-		rec := &recorder{in: m}
-		ok := false
-		res := Protect(func() string { ok = serveLoop(tr, pol, [][]byte{m}, rec); return "" })
-		if res == "panic" {
-			Viol("C14/Serve/panic", "server panicked", serveIn{tr, pol, Hx(m), ""})
-			return
-		}
-		if !ok {
-			stat["infra_timeout"]++
-			return
-		}
-		stat["serve_loop_"+tr]++
-		loopOut := modelEvents(rec.ev)
-		serveOracle(tr, pol, m, rec.ev, rec, "serve-loop")
-		// serveDNS through the hook (not applicable to short UDP packets)
-		if !(tr == "udp" && len(m) < 12) {
-			hookOut, hrec := serveHook(tr, pol, m)
-			if hookOut == "panic" {
-				Viol("C14/Serve/panic", "serveDNS panicked", serveIn{tr, pol, Hx(m), ""})
-			} else {
-				serveOracle(tr, pol, m, hrec.ev, hrec, "serveDNS")
-				if hookOut != loopOut {
-					Viol("C14/Serve/paths-disagree", "serve loop and direct serveDNS disagree: "+loopOut+" vs "+hookOut, serveIn{tr, pol, Hx(m), ""})
-				}
-			}
-		}
-		if emit {
-			unp, _, _ := unpackOracle(m)
-			Emit("serve", []string{tr, pol, Hx(m), unp}, loopOut)
-			emitted++
-			cls := "other"
-			switch {
-			case loopOut == "none":
-				cls = "ignored"
-			case strings.HasPrefix(loopOut, "h:"):
-				cls = "handler"
-			case strings.HasPrefix(loopOut, "w:"):
-				cls = "reject"
-			case strings.HasPrefix(loopOut, "inv:") && strings.Contains(loopOut, ";w:"):
-				cls = "invalid_reply"
-			case strings.HasPrefix(loopOut, "inv:"):
-				cls = "invalid"
-			}
-			stat["serve_case_"+cls]++
-		}
-	}
+	one := func(tr, pol string, m []byte, emit bool) { serveOne(tr, pol, m, emit) }
 	pols := []string{"default", "accept", "reject", "ignore", "notimp"}
 	for i, m := range msgs {
 		if len(m) > 300 {
@@ -669,7 +624,70 @@ func runServe(r *Rng, tier string) {
 			Viol("C14/Serve/tcp-sequence", "frames on one connection are not each handled once in order: got "+strings.Join(got, ";")+" want "+strings.Join(want, ";"), hx)
 		}
 	}
-	stat["serve_cases"] = emitted
+	stat["serve_cases"] = serveEmitted
+}
+
+var serveEmitted int
+
+// serveOne serves ONE inbound message: through serveDNS directly (hook, on this
+// goroutine, so that a panic of the server code is recovered and reported with
+// its input instead of killing the harness) and, when that did not panic,
+// through the real serve loop on scripted conns (whose serving goroutines nobody
+// can recover). Both logs go through the admission oracles and must agree.
+func serveOne(tr, pol string, m []byte, emit bool) {
+	hookOut := ""
+	var hrec *recorder
+	hookApplies := !(tr == "udp" && len(m) < 12) // the short-packet test lives in serveUDP
+	if hookApplies {
+		hookOut, hrec = serveHook(tr, pol, m)
+		if hookOut == "panic" {
+			Viol("C14/Serve/panic", "serveDNS panicked", serveIn{tr, pol, Hx(m), ""})
+			return
+		}
+	} else if Protect(func() string { new(dns.Msg).Unpack(m); return "" }) == "panic" {
+		Viol("C14/Serve/panic", "the message decoder panicked", serveIn{tr, pol, Hx(m), ""})
+		return
+	}
+	// real serve loop on scripted conns
+	rec := &recorder{in: m}
+	ok := false
+	res := Protect(func() string { ok = serveLoop(tr, pol, [][]byte{m}, rec); return "" })
+	if res == "panic" {
+		Viol("C14/Serve/panic", "server panicked", serveIn{tr, pol, Hx(m), ""})
+		return
+	}
+	if !ok {
+		stat["infra_timeout"]++
+		return
+	}
+	stat["serve_loop_"+tr]++
+	loopOut := modelEvents(rec.ev)
+	serveOracle(tr, pol, m, rec.ev, rec, "serve-loop")
+	if hookApplies {
+		serveOracle(tr, pol, m, hrec.ev, hrec, "serveDNS")
+		if hookOut != loopOut {
+			Viol("C14/Serve/paths-disagree", "serve loop and direct serveDNS disagree: "+loopOut+" vs "+hookOut, serveIn{tr, pol, Hx(m), ""})
+		}
+	}
+	if emit {
+		unp, _, _ := unpackOracle(m)
+		Emit("serve", []string{tr, pol, Hx(m), unp}, loopOut)
+		serveEmitted++
+		cls := "other"
+		switch {
+		case loopOut == "none":
+			cls = "ignored"
+		case strings.HasPrefix(loopOut, "h:"):
+			cls = "handler"
+		case strings.HasPrefix(loopOut, "w:"):
+			cls = "reject"
+		case strings.HasPrefix(loopOut, "inv:") && strings.Contains(loopOut, ";w:"):
+			cls = "invalid_reply"
+		case strings.HasPrefix(loopOut, "inv:"):
+			cls = "invalid"
+		}
+		stat["serve_case_"+cls]++
+	}
 }
 
 // ------------------------------------------------------------------ accept policy
@@ -1431,6 +1449,7 @@ func runC14(r *Rng, tier string, n int) {
 	runAccept(r)
 	runServe(r, tier)
 	runStreams(r, tier)
+	runRdataBounds(r, tier)
 	runMuxDirected()
 	runMuxCaseSweep()
 	runMux(r, tier)
